@@ -173,6 +173,30 @@ def run(ctx):
             ctx.violations.append(("a Pauli string with a factor outside the register gave %s instead of an error (%s)" % (what, c["mode"]),
                                    {"pauli_case": c, "impl": {k: r.get(k) for k in ("r", "e", "msg")}}))
     stats["pauli_entry_points"] = pst
+    # export of ANY built circuit never panics: every operator kind with every target / control arity (all indices in range, so
+    # building accepts them; execution and export may refuse, but must not panic). Time evolution is the documented exception.
+    xcases = []
+    for kind in KINDS:
+        for nt in (0, 1, 2, 3, 4):
+            for nc in (0, 1, 2):
+                n = 5
+                qs = rng.sample(range(n), min(n, nt + nc))
+                ts, cs = qs[:nt], qs[nt:nt + nc]
+                if rng.random() < 0.3 and ts: cs = cs + [ts[0]]            # overlapping control / target: building only checks the range
+                g = {"g": "op", "kind": kind, "params": rand_params(rng, kind), "ts": ts, "cs": cs}
+                xcases.append({"op": "export", "mode": "text", "n": n, "gates": [{"g": "op", "kind": "H", "params": [], "ts": [0], "cs": []}, g]})
+    for b in ("C", "X", "Y"):
+        xcases.append({"op": "export", "mode": "text", "n": 3, "gates": [{"g": "meas", "basis": b, "qs": []}, {"g": "meas", "basis": b, "qs": [2, 0]}]})
+    xres = run_harness(xcases, nproc=8)
+    xst = {"cases": len(xcases), "exported": 0, "refused": 0}
+    for c, r in zip(xcases, xres):
+        if r.get("r") == "ok": xst["exported"] += 1
+        elif r.get("r") in ("err", "build_err", "ctor_err"): xst["refused"] += 1
+        else:
+            g = c["gates"][-1]
+            ctx.violations.append(("export of a built circuit panicked (%s with targets %s controls %s): %s" % (g.get("kind", g.get("basis")), g.get("ts", g.get("qs")), g.get("cs", []), r.get("msg", r.get("stderr", ""))[:200]),
+                                   {"export_case": c, "impl": {k: r.get(k) for k in ("r", "e", "msg")}}))
+    stats["export_never_panics"] = xst
     cres = run_harness(ccases, nproc=8)
     cst = {"built": 0, "build_err": 0, "exec_ok": 0, "exec_err": 0}
     for c, r in zip(ccases, cres):
@@ -205,6 +229,10 @@ def run(ctx):
 
 def replay(ctx, path):
     body = json.load(open(path))
+    if body["replay"].get("export_case"):
+        r = run_harness([body["replay"]["export_case"]])[0]
+        print(json.dumps({"impl": {k: r.get(k) for k in ("r", "e", "msg")}}))
+        return 1 if r.get("r") in ("panic", "crash") else 0
     if body["replay"].get("pauli_case"):
         r = run_harness([body["replay"]["pauli_case"]])[0]
         print(json.dumps({"impl": {k: r.get(k) for k in ("r", "e", "msg")}}))
